@@ -25,6 +25,9 @@ import (
 	"fmt"
 	"net/http"
 	"net/http/httptest"
+	"runtime"
+	"runtime/debug"
+	"sync"
 
 	"github.com/fabiolb/fabio/proxy/gzip"
 	"verif/harness/hx"
@@ -56,6 +59,16 @@ type FOut struct {
 	Out
 	Fault *FaultObs `json:"fault"`
 }
+
+type FaultRes struct {
+	Outs []*FOut `json:"outs"`
+	Pool struct {
+		N     int  `json:"n"`
+		Twice bool `json:"twice"`
+	} `json:"pool"`
+}
+
+var faultOnce sync.Once
 
 var errGone = errors.New("write: broken pipe")
 
@@ -185,6 +198,20 @@ func runFault(raw json.RawMessage) (interface{}, error) {
 	}), re)
 	outs := make([]*FOut, n)
 	probes := make([]bool, n)
+	// sync.Pool keeps its items per P and gives them up to the garbage collector: with one P and no collection
+	// while the schedule runs, what it holds is exactly what was put in and not taken out — the model's pool
+	faultOnce.Do(func() { runtime.GOMAXPROCS(1) })
+	gcOld := debug.SetGCPercent(-1)
+	gcRestored := false
+	restoreGC := func() {
+		if !gcRestored {
+			gcRestored = true
+			debug.SetGCPercent(gcOld)
+		}
+	}
+	defer restoreGC()
+	// the schedule starts from an empty pool (a case does not depend on what earlier cases left behind)
+	gzip.VerifDrainPool(1 << 16)
 	var serve func(i int)
 	serve = func(i int) {
 		it := &in.Items[i]
@@ -223,6 +250,10 @@ func runFault(raw json.RawMessage) (interface{}, error) {
 			serve(i)
 		}
 	}
+	// what the schedule left in the pool: how many writers, and is one of them in there twice
+	res := &FaultRes{Outs: outs}
+	res.Pool.N, res.Pool.Twice = gzip.VerifDrainPool(1 << 16)
+	restoreGC()
 	// reference runs, after the schedule
 	for i := range in.Items {
 		it := &in.Items[i]
@@ -249,7 +280,7 @@ func runFault(raw json.RawMessage) (interface{}, error) {
 		}
 		fillOracle(&it.In, chunks[i], re, &o.Out, up.Bytes(), nw, canFlush)
 	}
-	return outs, nil
+	return res, nil
 }
 
 // received: the body the departed client got is a prefix of the reference body (compared by length + digest of
@@ -319,8 +350,10 @@ func genFault(r *hx.Rand, i int) interface{} {
 		if r.Chance(3, 5) { // exchanges in flight at the same time
 			for k := r.Range(1, 2); k > 0; k-- {
 				c := len(s.Items)
+				s.Items[p].Stop = false // a handler that returns early serves nobody from inside
 				s.Items = append(s.Items, item(p, r.Intn(nWrites(s.Items[p].In)+2)))
 				if r.Chance(1, 4) {
+					s.Items[c].Stop = false
 					s.Items = append(s.Items, item(c, r.Intn(nWrites(s.Items[c].In)+2)))
 				}
 			}
